@@ -1161,6 +1161,34 @@ func (w *World) compare(seg Segment) {
 			}
 		}
 	}
+	if len(missing) > 0 || len(extra) > 0 {
+		// the sequences differ, but a Create that was both expected and
+		// delivered (the same number of times) must still name its old name:
+		// pair the occurrences of each (Op, Name) in order
+		expFrom, gotFrom := map[string][]string{}, map[string][]string{}
+		for _, e := range exp {
+			if e.Op&fsnotify.Create != 0 {
+				expFrom[evKey(e)] = append(expFrom[evKey(e)], e.From)
+			}
+		}
+		for _, g := range got {
+			if g.Op&fsnotify.Create != 0 {
+				gotFrom[evKey(g)] = append(gotFrom[evKey(g)], g.From)
+			}
+		}
+		for k, ef := range expFrom {
+			gf := gotFrom[k]
+			if len(gf) != len(ef) {
+				continue
+			}
+			for i := range ef {
+				if ef[i] != gf[i] {
+					w.find(FFrom, "Create %s: expected old name %q, delivered %q%s", k, ef[i], gf[i], ctx())
+					break
+				}
+			}
+		}
+	}
 	if len(missing) == 0 && len(extra) == 0 {
 		for i := range exp {
 			if !exp[i].same(got[i]) {
